@@ -332,10 +332,10 @@ func init() {
 			pool.Close()
 			// calls racing Close
 			drivers := []concParams{
-				{Name: "put-vs-close", Cfg: "roomy/bytewise", Clients: [][]string{{"put:a"}, {"close"}}, QB: 3, TB: 4},
-				{Name: "get-vs-close", Cfg: "flushy/bytewise", Pre: []string{"put:a", "q"}, Clients: [][]string{{"get:a"}, {"close"}}, QB: 2, TB: 3},
-				{Name: "snapshot-vs-close", Cfg: "roomy/bytewise", Pre: []string{"put:a"}, Clients: [][]string{{"snapget:a"}, {"close"}}, QB: 3, TB: 4},
-				{Name: "transaction-vs-close", Cfg: "bigbatch/bytewise", Clients: [][]string{{"tr:+a,+b"}, {"close"}}, QB: 2, TB: 3},
+				{Name: "put-vs-close", Cfg: "roomy/bytewise", Clients: [][]string{{"put:a"}, {"close"}}, QB: 3, TB: 4, SQ: 1, ST: 1},
+				{Name: "get-vs-close", Cfg: "flushy/bytewise", Pre: []string{"put:a", "q"}, Clients: [][]string{{"get:a"}, {"close"}}, QB: 2, TB: 3, SQ: 1, ST: 1},
+				{Name: "snapshot-vs-close", Cfg: "roomy/bytewise", Pre: []string{"put:a"}, Clients: [][]string{{"snapget:a"}, {"close"}}, QB: 3, TB: 4, SQ: 1, ST: 1},
+				{Name: "transaction-vs-close", Cfg: "bigbatch/bytewise", Clients: [][]string{{"tr:+a,+b"}, {"close"}}, QB: 2, TB: 3, SQ: 1, ST: 1},
 				// Close with an open transaction while a recycled write buffer sits in the buffer pool
 				// (a transaction iterator released after the transaction flushed internally)
 				{Name: "close-with-open-transaction-and-pooled-buffer", Cfg: "wide/bytewise", Pre: []string{"otr", "tput:a", "tput:b", "titer", "tput:a", "reliter"}, Clients: [][]string{{"close"}, {"get:a"}}, QB: 2, TB: 3},
